@@ -333,7 +333,7 @@ class SubErr(Exception):
   def __init__(self, tag): Exception.__init__(self, tag); self.tag = tag
 
 
-def h_subtasks(ctx, depth, ops, siblings=False):
+def h_subtasks(ctx, depth, ops, siblings=False, top='class'):
   """nested task_function / Again calls, `depth` levels below a top-level task; ops[k] says where level k makes an extra blocking call
   ('' none, 'b' before its sub-call, 'a' after it, 'ba' both).  Each level either returns a value, raises, or falls off the end
   (symbolic choice); each caller catches what its callee raised.  The observable log must equal ordinary call/return semantics:
@@ -374,7 +374,18 @@ def h_subtasks(ctx, depth, ops, siblings=False):
       yield False
   out = sys.stdout; sys.stdout = io.StringIO(); err = sys.stderr; sys.stderr = io.StringIO()
   try:
-    for t in range(nt): Top(t).start(s)
+    if top == 'target':
+      # the threading.Thread-like form: Task(target=<generator function>) - the target's try/except around a sub-call works like anybody's
+      def top_gen(t):
+        try:
+          r = yield level(t, 0)()
+          logs[t].append(('top', 'got', r))
+        except SubErr as e:
+          logs[t].append(('top', 'caught', e.tag))
+        yield False
+      for t in range(nt): R.Task(target=top_gen, args=(t,)).start(s)
+    else:
+      for t in range(nt): Top(t).start(s)
     drive(s, 200, fs)
   finally:
     sys.stdout = out; sys.stderr = err
@@ -426,6 +437,7 @@ def obligations(tier):
             dict(recurring=False, cancel_after='cancel_before', start='deferred')]
   sub = [dict(depth=1, ops=['']), dict(depth=1, ops=['b']), dict(depth=2, ops=['', '']), dict(depth=2, ops=['b', 'a']), dict(depth=2, ops=['a', 'b']),
          dict(depth=3, ops=['', 'b', '']), dict(depth=3, ops=['ba', '', 'b']), dict(depth=2, ops=['b', 'b'], siblings=True)]
+  sub += [dict(depth=1, ops=['b'], top='target'), dict(depth=2, ops=['b', 'a'], top='target')]
   if thorough: sub += [dict(depth=3, ops=['a', 'ba', 'a']), dict(depth=4, ops=['', 'b', 'a', '']), dict(depth=3, ops=['b', '', 'a'], siblings=True)]
   BOUNDS[tier] = dict(subtask_chains=[(c['depth'], c['ops'], c.get('siblings', False)) for c in sub], task_programs=len(progs), yields_per_task="2..3 from %s" % KINDS, durations="1..5000 ms symbolic", clock_advance="symbolic per select call",
                       ready_sets="symbolic per select call (first 6 calls)", timers=[(t['recurring'], t['cancel_after'], t.get('start', 'now'), 'absolute' if t.get('absolute') else 'relative') for t in timers])
